@@ -212,7 +212,7 @@ Section Proofs.
     else if kstr_eqb ty (t_block cfg) || kstr_eqb ty (t_root cfg) then
       match go_members tk ms with
       | Some (ls, sub) =>
-          let kids := ls ++ match sub with Some s => s | None => [] end in
+          let kids := ls ++ match sub with Some s => flatten_roots s | None => [] end in
           if kstr_eqb ty (t_block cfg)
           then match el_name ms with Some n => Some (KBlock (Some n) kids) | None => None end
           else Some (KBlock None kids)
@@ -220,6 +220,18 @@ Section Proofs.
       end
     else None.
   Proof. reflexivity. Qed.
+
+  Lemma wf_children : forall on ch, wf_kv (KBlock on ch) = true -> Forall (fun c => named c = true /\ wf_kv c = true) ch.
+  Proof.
+    intros on ch. cbn [wf_kv]. induction ch as [|c ch IH]; intros H; [constructor|].
+    apply andb_prop in H. destruct H as [H H2]. apply andb_prop in H. destruct H as [H0 H1].
+    constructor; [split; assumption | apply IH; exact H2].
+  Qed.
+  Lemma flatten_named : forall ch, Forall (fun c => named c = true /\ wf_kv c = true) ch -> flatten_roots ch = ch.
+  Proof.
+    induction 1 as [|c ch [Hn _] _ IH]; [reflexivity|]. unfold flatten_roots in *. cbn [flat_map]. rewrite IH.
+    destruct c as [n v|[n|] l]; cbn in *; [reflexivity | reflexivity | discriminate].
+  Qed.
 
   Lemma to_kv1_leaf : forall n v, tk (from_kv1 fold cfg (KLeaf n v)) = Some (KLeaf n v).
   Proof.
@@ -232,9 +244,10 @@ Section Proofs.
     now rewrite kstr_eqb_refl.
   Qed.
 
-  Theorem kv1_bridge_roundtrip_gen : forall t, tk (from_kv1 fold cfg t) = Some t.
+  Theorem kv1_bridge_roundtrip_gen : forall t, wf_kv t = true -> tk (from_kv1 fold cfg t) = Some t.
   Proof.
-    induction t as [n v|on ch IH] using kv_ind'; [apply to_kv1_leaf|].
+    induction t as [n v|on ch IH] using kv_ind'; intros Hwf; [apply to_kv1_leaf|].
+    apply wf_children in Hwf.
     destruct Hparts as ((Hlb & Hlr & Hbr) & (Hv & Hs & Hn) & (Hrn & Hrs & Hsn)).
     destruct Hfold as (Hfn & Hfs & Hfv).
     cbn [from_kv1].
@@ -248,7 +261,8 @@ Section Proofs.
     { subst ty. destruct on; rewrite kstr_eqb_refl; [reflexivity | apply orb_true_r]. }
     (* children convert back *)
     assert (Hmp : mp_el tk (map (from_kv1 fold cfg) ch) = Some ch).
-    { clear -IH. induction IH as [|c ch Hc _ IHl]; cbn [map mp_el]; [reflexivity|]. rewrite Hc, IHl. reflexivity. }
+    { clear -IH Hwf. induction IH as [|c ch Hc _ IHl]; cbn [map mp_el]; [reflexivity|].
+      inversion Hwf as [|? ? [_ Hw] Hwf']; subst. rewrite (Hc Hw), (IHl Hwf'). reflexivity. }
     destruct (no_inl || has_block st) eqn:Huse.
     - (* nested: everything goes to subkeys *)
       assert (Hall : forall c, In c ch -> no_inl || is_block c = true).
@@ -267,7 +281,7 @@ Section Proofs.
       cbn [go_members]. rewrite Hs, Hn. rewrite kstr_eqb_refl.
       rewrite Hmp.
       destruct (kstr_eqb c_name (k_subkeys_w cfg)) eqn:E1; [apply kstr_eqb_eq in E1; congruence|].
-      rewrite kstr_eqb_refl. cbn [app].
+      rewrite kstr_eqb_refl. cbn [app]. rewrite (flatten_named ch Hwf).
       unfold el_name. cbn [dget]. rewrite kstr_eqb_refl.
       subst ty nm. destruct on as [n|].
       + rewrite kstr_eqb_refl. reflexivity.
@@ -328,3 +342,9 @@ Example kv1_reserved_rule_needed :
   to_kv1 (fun s => s) no_reserved_cfg (from_kv1 (fun s => s) no_reserved_cfg (KBlock (Some [66]%N) [KLeaf c_name [120]%N]))
   <> Some (KBlock (Some [66]%N) [KLeaf c_name [120]%N]).
 Proof. vm_compute. discriminate. Qed.
+
+(** A root (name None) nested inside a block is merged into its parent by Keyvalues.append: [wf_kv] is necessary. *)
+Example kv1_nested_root_is_flattened :
+  to_kv1 (fun s => s) sample_cfg (from_kv1 (fun s => s) sample_cfg (KBlock (Some [66]%N) [KBlock None [KLeaf [97]%N [98]%N]]))
+  = Some (KBlock (Some [66]%N) [KLeaf [97]%N [98]%N]).
+Proof. vm_compute. reflexivity. Qed.
